@@ -167,7 +167,7 @@ class Gen:
             if ret == INT and rank < ctx["rank"]:
                 cands.append(("def", name, ps))
         for n, (t, m) in sc.lookup_all().items():
-            if t.startswith("(fn") and t.endswith(" int)"):
+            if t.startswith("(fn") and t.endswith(" int)") and not ctx.get("no_clo_calls"):
                 ps = self.fn_params(t)
                 cands.append(("clo", n, ps))
         if not cands:
@@ -273,7 +273,7 @@ class Gen:
         r = self.r
         k = self.k
         c = r.random()
-        if k.closures and k.closure_bias and r.random() < k.closure_bias and not ctx.get("pure"):
+        if k.closures and k.closure_bias and r.random() < k.closure_bias and not ctx.get("pure") and not ctx.get("no_clo_calls"):
             fs = [(n, t) for n, (t, m) in sc.lookup_all().items() if t.startswith("(fn")]
             if fs and r.random() < 0.6 and self.charge(ctx, fs[0][0]):
                 n, t = fs[0]
@@ -286,6 +286,17 @@ class Gen:
                 self.features.add("call-clo")
                 call = f"(callc (var {n}) {args})".replace(" )", ")")
                 return f"(print {call})" if r.random() < 0.7 else f"(expr {call})"
+            # let closures ESCAPE the scope that creates them: assign a fresh closure (capturing the
+            # locals visible here, e.g. loop-body locals) to a closure variable declared further out
+            outer = [(n, t) for n, (t, m) in sc.lookup_all().items() if t.startswith("(fn") and m and n not in sc.vars]
+            if outer and r.random() < 0.6:
+                n, t = self.pick(outer)
+                self.features.add("closure-escapes")
+                # no closure calls inside an escaping closure: reassignable closure variables could
+                # otherwise form call cycles (non-termination)
+                lam = self.lam(sc, t, 1, dict(ctx, no_clo_calls=True))
+                self.cost[n] = max(self.cost.get(n, 1), self.last_lam_cost)
+                return f"(expr (assign {n} {lam}))"
             return self.decl(sc, d, ctx, force_closure=True)
         if ctx.get("in_w") and r.random() < 0.18 and not ctx.get("pure"):
             self.features.add("yield-mark")
@@ -392,13 +403,48 @@ class Gen:
         c2.setdefault("acc", ctx.setdefault("acc", [0]))
         body_sc = Scope(sc)
         inc = f"(expr (assign {i} (bin add (var {i}) (int 1))))"
+        pre, post, esc = "", "", ""
+        body = self.block(body_sc, d - 1, c2)     # before the escape locals exist: it cannot mention them
+        if (self.k.closures and self.k.closure_bias and r.random() < self.k.closure_bias + 0.2
+                and not ctx.get("pure") and not ctx.get("no_clo_calls")):
+            # one closure per ITERATION escapes into its own outer variable: a variable captured in
+            # iteration k must keep iteration k's value (fresh variable per iteration), also when the
+            # body is left by `continue`/`break` or ends in nested scopes
+            self.features.add("closure-per-iteration")
+            ty0 = fn_ty([], INT)
+            gs = [self.fresh("g") for _ in range(min(bound, 3))]
+            for g in gs:
+                pre += f"(decl {g} _ (lam () int (expr (int 0)))) "
+                sc.vars[g] = (ty0, False)
+                self.cost[g] = 1
+            x = self.fresh("x")
+            body_sc.vars[x] = (INT, True)
+            esc = f"(decl {x} _ (bin mul (var {i}) (int 10))) "
+            inner = ""
+            y = None
+            if r.random() < 0.5:    # a nested scope with its own captured local, ending with the body
+                y = self.fresh("y")
+                inner = f"(decl {y} _ (bin add (var {i}) (int 100))) "
+            for kk, g in enumerate(gs):
+                cap = f"(bin add (var {x}) (var {y}))" if y else f"(bin add (var {x}) (var {i}))"
+                esc_k = f"(if (bin eq (var {i}) (int {kk + 1})) ((expr (assign {g} (lam () int (expr {cap}))))) ())"
+                inner += esc_k + " "
+            if y:
+                esc += f"(if (bool true) ({inner}) ()) "
+            else:
+                esc += inner
+            if r.random() < 0.4:
+                esc += f"(if (bin eq (bin mod (var {i}) (int 2)) (int 0)) (({self.pick(['cont', 'cont', 'brk'])} _)) ()) "
+            if r.random() < 0.5:
+                esc += f"(expr (assign {x} (bin add (var {x}) (int 1)))) "
+            post = " " + " ".join(f"(print (callc (var {g})))" for g in gs)
         if r.random() < 0.7:
-            body = self.block(body_sc, d - 1, c2)
-            return f"(decl {i} _ (int 0)) (while {lbl} (bin lt (var {i}) (int {bound})) {inc} {body})"
+            if esc and r.random() < 0.5:
+                return f"{pre}(decl {i} _ (int 0)) (while {lbl} (bin lt (var {i}) (int {bound})) {inc} {esc} {body}){post}"
+            return f"{pre}(decl {i} _ (int 0)) (while {lbl} (bin lt (var {i}) (int {bound})) {inc} {body} {esc}){post}"
         self.features.add("loop-forever")
-        body = self.block(body_sc, d - 1, c2)
-        return (f"(decl {i} _ (int 0)) (loop {lbl} {inc} "
-                f"(if (bin gt (var {i}) (int {bound})) ((brk _)) ()) {body})")
+        return (f"{pre}(decl {i} _ (int 0)) (loop {lbl} {inc} "
+                f"(if (bin gt (var {i}) (int {bound})) ((brk _)) ()) {body} {esc}){post}")
 
     def try_(self, sc, d, ctx):
         r = self.r
